@@ -23,7 +23,7 @@ PROPS["C28"] = {
     "groups": [
         {
             "mounts": [("c28_time.rs", "common/mod.rs"), ("c28_limit.rs", "syscall/unix/mod.rs")],
-            "harnesses": ["c28_timeout_saturates", "c28_slices_q0", "c28_slices_q1", "c28_slices_q2",
+            "harnesses": ["c28_timeout_saturates", "c28_slices_q0", "c28_slices_q1", "c28_slices_q2", "c28_slices_runtime_slice",
                           "c28_slices_progress_step", "c28_time_limit_all_timeval"],
             "thorough_harnesses": ["c28_slices_q3_narrow", "c28_slices_q4_narrow"],
             "timeout_thorough": 3000,
@@ -339,7 +339,7 @@ PROPS["C12"] = {
     "assumptions": ["E5 verif_sync Mutex/Condvar model", "queue beans pre-created small; model crates"],
     "groups": [
         {"mounts": [("c02_join.rs", "co_pool/mod.rs")], "subs": _C02_SUBS, "cfgs": ["ocv_small"],
-         "harnesses": ["c12_lifecycle_only_moves_forward", "c12_stop_rejects_new_work", "c12_stop_settles_waiters", "c12_stop_settles_a_waiter_that_polls_fixed_id"],
+         "harnesses": ["c12_lifecycle_only_moves_forward", "c12_stop_rejects_new_work", "c12_stop_settles_waiters", "c12_stop_settles_a_waiter_that_polls_fixed_id", "c12_stop_of_a_stopped_pool_settles_late_waiters"],
          # (the symbolic-id twin needs 28 GB and 260 s of SAT on an idle machine and ended without a verdict under load: thorough tier)
          "thorough_harnesses": ["c12_running_pool_accepts_work", "c12_stop_settles_a_waiter_that_polls"],
          "timeout": 1200, "timeout_thorough": 3000, "jobs": 2, "mem_gb": 28},
@@ -437,6 +437,8 @@ PROPS["C03"] = {
          # only the push/push pair of the ordered queue fits: the three pairs with a pop (skip-list iteration + injector steal inside the
          # pre-empted operation) ran CBMC out of memory (20 GB) after 170-210 s of symbolic execution; they stay in the harness file
          "harnesses": ["c03_ows_race_push_push"], "timeout": 900},
+        # (retried with the small model containers - skip list of 2 priorities, injectors of 4 - and 40 GB: c03_ows_race_push_pop still ended
+        # without a verdict after 1247 s, so the pairs with a pop stay unregistered)
     ],
 }
 
@@ -448,7 +450,7 @@ _CO_ASSUME = [
 PROPS["C07"] = {
     "functions": ["coroutine::state::{ready,running,suspend,syscall,cancel,complete,error,change_state}",
                   "coroutine::listener broadcast! (on_state_changed + per-state callbacks)", "Coroutine::new"],
-    "bounds": "one transition request from an arbitrary current state (7 variants, symbolic payloads, 4 syscall names x 4 syscall states) with symbolic "
+    "bounds": "one transition request from an arbitrary current state (7 variants, symbolic payloads, every SyscallName variant x 4 syscall states) with symbolic "
               "arguments and symbolic clock, 1 listener; one solver query per transition function.",
     "outside": "panicking listeners (E4), 2+ listeners, the real body wrapper, whole resume sequences (scripted-body harnesses).",
     "assumptions": _CO_ASSUME,
@@ -476,7 +478,9 @@ PROPS["C09"] = {
             "mounts": [("c09_requests.rs", "coroutine/suspender.rs")],
             "harnesses": ["c09_step_plain_suspend", "c09_step_delay", "c09_step_cancel", "c09_step_delay_in_syscall_state",
                           "c09_step_cancel_in_syscall_state", "c09_step_cancel_while_parked_in_syscall"],
-            "thorough_harnesses": ["c09_running_state_requests", "c09_syscall_state_requests"],
+            # (the two 2-coroutine SEQUENCE harnesses c09_running_state_requests / c09_syscall_state_requests - a cross-check of the step
+            # harnesses' invariant - are no longer registered: with 7 request kinds they end without a verdict at 30 GB; the step
+            # harnesses decide the property for histories of any length)
             "timeout": 900, "timeout_thorough": 3000, "jobs": 6,
         },
     ],
